@@ -10,6 +10,7 @@ from engine import pat
 from engine.util import own_nodes, calls_with_nodes, where
 
 RULES = {
+    "R-20.5": "the delegation index is a B-tree shared copy-on-write between versions: it stays equal to the flags of ITS version only if no shared node is ever written (C19 R-19.1 adopted)",
     "R-20.1": "every site in btreezone.WritableVersion that obtains a fresh node re-derives or copies every NodeFlags member",
     "R-20.2": "the DELEGATION flag, the delegation index and the GLUE flags of the subtree change together (add/discard paired with the flag and update_glue_flag)",
     "R-20.4": "bounds(): both bounds skip occluded (glue) names, and no `x[-n:]` slice is taken with an n that may be 0 (it would yield the whole name instead of the empty one: the apex of a relativized zone)",
@@ -322,6 +323,7 @@ def run(model, rep, tier):
                   "and its commit silently drops everything committed since", stmt="newest-base")
         rep.check(bool(fresh_idx) and all(conds(x) != conds(dn) for x in fresh_idx), "R-20.2", wi.qualname, where(wi, wi.node), "a replacement writer starts with an empty delegation index",
                   "no arm gives a replacement writer an empty delegation index", stmt="fresh-index")
+    rep.share(model, "C19", {"R-19.1"}, "R-20.5", "WritableVersion clones version.delegations (a BTreeSet) and version.nodes; a rolled-back or superseded writer must leave the older version's index intact")
     rep.meta["explanation"] = (
         "Exhaustiveness of flag re-derivation over the NodeFlags enum at every site that replaces a node, block-level pairing of flag/index/"
         "subtree updates, and shape rules for the helper predicates. bounds() results and nested-cut semantics are NOT decided (the nested-cut "
